@@ -367,6 +367,16 @@ func weakHashBits(shard int) int {
 	return 0
 }
 
+func weakShards(n int) int {
+	c := 0
+	for sh := 0; sh < n; sh++ {
+		if weakHashBits(sh) != 0 {
+			c++
+		}
+	}
+	return c
+}
+
 func runShards(bin string, engine, prop, tier string, seed uint64, n int, maxSecs float64, nshards int, shardOffset int, race bool, agg *aggregate) {
 	S := scratch
 	var wg sync.WaitGroup
@@ -803,41 +813,43 @@ func writeEvidence(prop, tier string, seed uint64, spec *propSpec, agg *aggregat
 	}
 	uncontrolled := info.InstrReport["uncontrolled_sources"]
 	cov := map[string]any{
-		"evaluations":                  agg.Evaluations,
-		"distinct_nontrivial":          len(agg.fp),
-		"rule":                         spec.rule,
-		"samples":                      samples,
-		"workloads":                    agg.Workloads,
-		"distinct_workloads":           len(agg.keys),
-		"simulated_runs_per_hour":      int64(perHour),
-		"seeds":                        []uint64{seed},
-		"sched_steps_total":            agg.Steps,
-		"task_switches_total":          agg.Switches,
-		"sim_clock_ms":                 agg.ClockMs,
-		"ulids_issued":                 agg.ULIDs,
-		"faults_fired":                 agg.Faults,
-		"map_sites_seen":               agg.SitesSeen,
-		"map_sites_perturbed":          agg.SitesHit,
-		"mix":                          agg.Mix,
-		"probes":                       agg.Probes,
-		"known_findings_hit":           agg.KnownHits,
-		"violation_counts":             agg.ViolationCnt,
-		"rerun_sample":                 map[string]int{"n": agg.RerunN, "divergences": agg.RerunDiv},
-		"uncontrolled_sources":         uncontrolled,
-		"fault_kinds_expected_to_fire": spec.mustHit,
-		"fault_kinds_that_never_fired": neverFired(spec, agg),
-		"instrumentation":              info.InstrReport["counts"],
-		"repo_tree_hash":               info.RepoTreeHash,
-		"worker_shards":                agg.shards,
-		"stopped_by_wall_clock_cap":    agg.TimedOut,
-		"build_s":                      buildS,
-		"run_s":                        runS,
-		"faults_not_injected_and_why":  "network, disk, timers, allocation failure: the library performs no I/O and owns no timers (DESIGN.md §2)",
-		"distinct_interleaving_metric": "FNV hash of the ordered seam event log (site, kind, choice, task) of each simulated run",
+		"evaluations":                      agg.Evaluations,
+		"distinct_nontrivial":              len(agg.fp),
+		"rule":                             spec.rule,
+		"samples":                          samples,
+		"workloads":                        agg.Workloads,
+		"distinct_workloads":               len(agg.keys),
+		"simulated_runs_per_hour":          int64(perHour),
+		"seeds":                            []uint64{seed},
+		"sched_steps_total":                agg.Steps,
+		"task_switches_total":              agg.Switches,
+		"sim_clock_ms":                     agg.ClockMs,
+		"ulids_issued":                     agg.ULIDs,
+		"faults_fired":                     agg.Faults,
+		"map_sites_seen":                   agg.SitesSeen,
+		"map_sites_perturbed":              agg.SitesHit,
+		"mix":                              agg.Mix,
+		"probes":                           agg.Probes,
+		"known_findings_hit":               agg.KnownHits,
+		"violation_counts":                 agg.ViolationCnt,
+		"rerun_sample":                     map[string]int{"n": agg.RerunN, "divergences": agg.RerunDiv},
+		"uncontrolled_sources":             uncontrolled,
+		"fault_kinds_expected_to_fire":     spec.mustHit,
+		"fault_kinds_that_never_fired":     neverFired(spec, agg),
+		"instrumentation":                  info.InstrReport["counts"],
+		"repo_tree_hash":                   info.RepoTreeHash,
+		"worker_shards":                    agg.shards,
+		"stopped_by_wall_clock_cap":        agg.TimedOut,
+		"build_s":                          buildS,
+		"run_s":                            runS,
+		"faults_not_injected_and_why":      "network, disk, allocation failure: the library performs no I/O (DESIGN.md §2). Timers, sleeps, context deadlines, sync.Cond, sync.Pool and 32/64-bit non-cryptographic hashes are behind seams (simulated discrete-event clock, simulated pool, weak-hash mode; DESIGN.md 13.12, 13.13) and their fault kinds fire only on a tree that uses them: the pinned tree does not",
+		"hash_sites_behind_weak_hash_seam": hashSites,
+		"worker_shards_in_weak_hash_mode":  weakShards(agg.shards),
+		"distinct_interleaving_metric":     "FNV hash of the ordered seam event log (site, kind, choice, task) of each simulated run",
 		"components": map[string]any{
 			"real_instrumented": []string{"github.com/openfga/language/pkg/go/... (working tree of /repo + mechanically inserted seams)", "antlr4-go/antlr/v4 v4.13.1 (mutex.go replaced by a cooperative equivalent)", "gonum.org/v1/gonum/graph/... v0.16.0 (-tags safe; map ranges and map iterators order-controlled)"},
 			"real":              []string{"google.golang.org/protobuf", "openfga/api/proto", "gopkg.in/yaml.v3", "hashicorp/go-multierror", "Go runtime and standard library"},
-			"stub":              []string{"ulid.Make (simulated clock + entropy)", "Go map iteration order (seam)", "OS/Go scheduler's choice of which caller runs (seeded serialising scheduler)"},
+			"stub":              []string{"ulid.Make (simulated clock + entropy)", "Go map iteration order (seam)", "OS/Go scheduler's choice of which caller runs (seeded serialising scheduler)", "wall clock, timers and context deadlines (discrete-event clock; only reached on a tree that uses them)", "sync.Pool (simulated pool; only on a tree that uses it)", "which ready select case is taken, which sync.Cond waiter is woken (tape)"},
 		},
 	}
 	if agg.Extra != nil {
